@@ -192,7 +192,7 @@ def use_eigh(**kw):
     return npatch.EIGH_HANDLER[0]
 
 
-def spectral_symmetric(handler, n, block=None, tag="H", ascending=True, planes=None):
+def spectral_symmetric(handler, n, block=None, tag="H", ascending=True, planes=None, w_values=None):
     """a real symmetric matrix GIVEN BY its eigen-decomposition: H = S diag(w) S^T with S
     any orthogonal matrix of the handler's family and w ascending.  By the spectral
     theorem every real symmetric matrix (with that block structure) is of this form, so
@@ -201,9 +201,9 @@ def spectral_symmetric(handler, n, block=None, tag="H", ascending=True, planes=N
     S, S1 = handler.fresh_S(n, tag + ".S", planes=planes)
     w = numpy.empty(n, dtype=object)
     for i in range(n):
-        w[i] = core.real("%s.w%d" % (tag, i))
+        w[i] = core.real("%s.w%d" % (tag, i)) if w_values is None else lift(w_values[i])
     blocks = block if block is not None else [list(range(n))]
-    if ascending:
+    if ascending and w_values is None:
         order = [i for blk in blocks for i in blk]
         for a, b in zip(order[:-1], order[1:]):
             ENGINE.assume(w[a].re <= w[b].re, "spectral parametrisation: eigenvalues ascending")
